@@ -146,6 +146,11 @@ def run_unit(unit, rng, ctx):
     if not first_other:
         G_other = F.free_energy_graph(max_energy_threshold=thr, diagonal=not diagonal)
     ctx.check(set(G.nodes) == allowed, f'{what0}: graph nodes differ from the voxels below the threshold', wit0)
+    # the module-level function on the bare array must build the same graph as the method
+    import gemdat.path as gp
+
+    G_fn = gp.free_energy_graph(np.array(Fd), max_energy_threshold=thr, diagonal=diagonal)
+    ctx.check(set(G_fn.nodes) == set(G.nodes) and {frozenset(e) for e in G_fn.edges} == {frozenset(e) for e in G.edges}, f'{what0}: path.free_energy_graph(ndarray) and FreeEnergyVolume.free_energy_graph() build different graphs', wit0)
     for Gx, dg in ((G, diagonal), (G_other, not diagonal)):
         E = {frozenset((tuple(int(x) for x in u), tuple(int(x) for x in v))) for u, v in Gx.edges if tuple(u) != tuple(v)}
         face = {frozenset((u, v)) for u in allowed for v in nb6[u] if v in allowed}
@@ -184,6 +189,11 @@ def run_unit(unit, rng, ctx):
             if diagonal and rng.integers(2):
                 # on the fly: the volume builds its default (diagonal) graph itself
                 path = F.optimal_path(start=start, stop=stop, method=method)
+            elif rng.integers(3) == 0:
+                # module-level function (no grid dimensions attached to the result)
+                path = gp.optimal_path(G, start=start, stop=stop, method=method)
+                path.dims = F.dims
+                ctx.count('via_path.optimal_path')
             else:
                 path = F.optimal_path(F_graph=G, start=start, stop=stop, method=method)
         except (nx.NetworkXNoPath, nx.NodeNotFound) as exc:
